@@ -1084,6 +1084,174 @@ def quic_cid_authentication():
     return out
 
 
+# ------------------------------------------------------------ trust configuration x history
+# What a client trusts is a property of ITS configuration (cafile / capath / cadata), not of what other
+# connections in the same process trusted before.  Runs are (trust configuration, server chain); the
+# reference verdict is set membership: the issuer of the server's leaf is in the union of the files named.
+TRUST = {
+    "cadata=verif": dict(cadata="ca.pem"),
+    "cafile=verif": dict(cafile="ca.pem"),
+    "cafile=other": dict(cafile="otherca.pem"),
+    "cafile=other+cadata=verif": dict(cafile="otherca.pem", cadata="ca.pem"),
+    "cafile=verif+cadata=other": dict(cafile="ca.pem", cadata="otherca.pem"),
+    "capath=verif": dict(capath="verif"),
+    "capath=verif+cadata=other": dict(capath="verif", cadata="otherca.pem"),
+}
+SERVERS = {"verif": ("ed25519.pem", "ed25519.key", "ca.pem"), "other": ("otherleaf.pem", "otherleaf.key", "otherca.pem")}
+
+
+def _capath_dir():
+    """An OpenSSL-style hashed directory holding only the verif CA."""
+    import subprocess
+
+    d = os.path.join(MENU_DIR, "capath_verif")
+    if not os.path.isdir(d) or not os.listdir(d):
+        os.makedirs(d, exist_ok=True)
+        src = certs.path("ca.pem")
+        h = subprocess.run(["openssl", "x509", "-noout", "-subject_hash", "-in", src], capture_output=True, text=True).stdout.strip()
+        if not h:
+            raise core.HarnessError("cannot compute the subject hash of ca.pem (openssl missing?)")
+        tmp = os.path.join(d, "tmp%d" % os.getpid())
+        with open(src, "rb") as f, open(tmp, "wb") as g:
+            g.write(f.read())
+        os.replace(tmp, os.path.join(d, h + ".0"))
+    return d
+
+
+def trust_expected(tname, sname):
+    t = TRUST[tname]
+    anchors = {t.get("cadata"), t.get("cafile"), "ca.pem" if t.get("capath") else None}
+    return SERVERS[sname][2] in anchors
+
+
+def trust_run(tname, sname):
+    """One TLS-level handshake of real Contexts; -> did the client complete?"""
+    t = TRUST[tname]
+    kw = {}
+    if t.get("cadata"):
+        with open(certs.path(t["cadata"]), "rb") as f:
+            kw["cadata"] = f.read()
+    if t.get("cafile"):
+        kw["cafile"] = certs.path(t["cafile"])
+    if t.get("capath"):
+        kw["capath"] = _capath_dir()
+    c = tls.Context(is_client=True, alpn_protocols=["a"], server_name="localhost", **kw)
+    c.handshake_extensions = [(tls.ExtensionType.QUIC_TRANSPORT_PARAMETERS, TP_C)]
+    s = tls.Context(is_client=False, alpn_protocols=["a"])
+    cfg = QuicConfiguration(is_client=False)
+    cfg.load_cert_chain(certs.path(SERVERS[sname][0]), certs.path(SERVERS[sname][1]))
+    s.certificate, s.certificate_chain, s.certificate_private_key = cfg.certificate, cfg.certificate_chain, cfg.private_key
+    s.handshake_extensions = [(tls.ExtensionType.QUIC_TRANSPORT_PARAMETERS, TP_S)]
+    dead = _relay(c, s)
+    return c.state == tls.State.CLIENT_POST_HANDSHAKE, dead["c"]
+
+
+def _isolated(fn, arg):
+    """fn(arg) in a forked child (module-level state of this process is not touched)."""
+    import pickle
+
+    r, w = os.pipe()
+    pid = os.fork()
+    if pid == 0:
+        try:
+            os.close(r)
+            try:
+                out = ("ok", fn(arg))
+            except BaseException as e:  # noqa
+                out = ("exc", "%s: %s" % (type(e).__name__, e))
+            with os.fdopen(w, "wb") as f:
+                pickle.dump(out, f)
+        finally:
+            os._exit(0)
+    os.close(w)
+    with os.fdopen(r, "rb") as f:
+        data = f.read()
+    os.waitpid(pid, 0)
+    if not data:
+        raise core.HarnessError("isolated child died on %r" % (arg,))
+    kind, val = pickle.loads(data)
+    if kind == "exc":
+        raise core.HarnessError("isolated child raised %s on %r" % (val, arg))
+    return val
+
+
+def _trust_history(hist):
+    return [trust_run(t, sv) for t, sv in hist]
+
+
+def _trust_chunk(hists):
+    """Runs in ONE forked child: the histories of the chunk one after the other (state left behind by an
+    earlier history of the chunk is part of what is explored).  -> [(flat position, run, done, exc)] of the
+    runs whose verdict differs from the reference, + number of runs."""
+    flat, bad = [], []
+    for h in hists:
+        for r in h:
+            done, exc = trust_run(*r)
+            flat.append(r)
+            if done != trust_expected(*r):
+                bad.append((len(flat) - 1, r, done, exc))
+    return flat, bad
+
+
+def trust_job(hists):
+    flat, bad = _isolated(_trust_chunk, hists)
+    out = []
+    seen = set()
+    for pos, r, done, exc in bad:
+        if (r, done) in seen:
+            continue
+        seen.add((r, done))
+        # shortest history that reproduces it in a fresh process: alone, after one earlier run, full prefix
+        cands = [[r]] + [[e, r] for e in dict.fromkeys(flat[:pos])] + [flat[:pos + 1]]
+        for c in cands:
+            v = _isolated(_trust_history, c)
+            if v[-1][0] == done:
+                out.append((c, done, v[-1][1]))
+                break
+        else:
+            raise core.HarnessError("trust verdict %r for %r does not reproduce in a fresh process" % (done, r))
+    return len(flat), out
+
+
+def part_trust_history(ctx, workers):
+    _capath_dir()
+    runs = [(t, sv) for t in TRUST for sv in SERVERS]
+    hists = [[r] for r in runs] + [[a, b] for a in runs for b in runs]
+    if ctx.tier != "quick":
+        # a third connection: (pollute, anything, victim) over the runs whose verdict is a refusal
+        refused = [r for r in runs if not trust_expected(*r)]
+        hists += [[a, b, v] for a in runs for b in runs for v in refused]
+    per = max(1, (len(hists) + 2 * workers - 1) // (2 * workers))
+    chunks = [hists[i:i + per] for i in range(0, len(hists), per)]
+    res = core.pmap(trust_job, chunks, workers=workers)
+    n = 0
+    reported = set()
+    for nruns, out in res:
+        n += nruns
+        for hist, done, exc in out:
+            t, sv = hist[-1]
+            exp = trust_expected(t, sv)
+            first = len(hist) == 1
+            sig = {"monitor": "trust_not_from_own_configuration" if not first else "trust_configuration_misjudged",
+                   "client_trusts": t, "server_chain": sv, "completed": done}
+            k = core.stable_hash(sig)
+            if k in reported:
+                continue
+            reported.add(k)
+            before = ", ".join("%s/%s" % tuple(x) for x in hist[:-1]) or "nothing"
+            ctx.violation(sig, "client configured with %s %s a server whose chain ends in the %s CA (expected: %s)%s"
+                          % (t, "completed the handshake with" if done else "refused (%s)" % exc, sv,
+                             "complete" if exp else "refuse",
+                             "" if first else "; connections made earlier in the same process: " + before),
+                          {"part": "trust_history", "history": [list(x) for x in hist]})
+    exp_kinds = {trust_expected(*r) for r in runs}
+    if len(exp_kinds) < 2:
+        raise core.HarnessError("trust histories vacuous")
+    ctx.part("trust_history", evaluations=n, transitions=n, histories=len(hists), trust_configurations=len(TRUST),
+             server_chains=len(SERVERS), max_history=max(len(h) for h in hists), processes=len(chunks),
+             distinct_nontrivial=len(runs))
+
+
 def _adv_job(job):
     kt, name = job
     return adversary_runs(kt, name)
@@ -1358,6 +1526,8 @@ def run(ctx):
         part_integrity_quic(ctx, w, 6 if quick else 1, (1,) if quick else (1, 2))
     if "auth" in parts:
         part_auth(ctx, w)
+    if "auth" in parts or "trust_history" in parts:
+        part_trust_history(ctx, w)
     if "agreement" in parts:
         part_tls_resumption(ctx, w)
         part_agreement(ctx, w, cross_resumption_specs(), "agreement_resumption_across_config_change",
@@ -1439,6 +1609,21 @@ def replay(ctx, obj):
             print("  %-44s HandshakeCompleted=%s close code=%r" % (case, done, code))
             if case == rp["case"] and done:
                 bad = True
+    elif part == "auth_quic_cid":
+        bad = False
+        for case, done, code in quic_cid_authentication():
+            print("  %-52s HandshakeCompleted=%s close code=%r" % (case, done, code))
+            if case == rp["case"] and done:
+                bad = True
+    elif part == "trust_history":
+        hist = [tuple(x) for x in rp["history"]]
+        verdicts = _isolated(_trust_history, hist)
+        bad = False
+        for (t, sv), (done, exc) in zip(hist, verdicts):
+            exp = trust_expected(t, sv)
+            print("  client trusts %-28s server chain %-6s -> completed=%s (%s), reference says %s%s"
+                  % (t, sv, done, exc, exp, "" if done == exp else "   <-- DIFFERS"))
+        bad = verdicts[-1][0] != trust_expected(*hist[-1])
     elif part == "auth_adversary":
         rows = adversary_runs(rp["kt"], rp["name"])
         bad = False
